@@ -240,9 +240,7 @@ def run_input_case(case, entry):
         if entry == "create_only":
             fn = database.create_channel_db if name == "channel" else database.create_usage_db
             if kind == "missing":
-                c = fn(path)
-                c.close()
-                check_complete(path, name, where)
+                _create_on_empty_path(fn, path, name, where)
                 return label, False
             try:
                 c = fn(path)
@@ -253,8 +251,9 @@ def run_input_case(case, entry):
             else:
                 c.close()
                 raise Violation("%s: did not refuse the existing file" % where, sig="C19 create-only touched an existing file")
-            if listing(d) != before:
-                raise Violation("%s: the existing file or its directory was modified" % where, sig="C19 create-only modified an existing file")
+            now = listing(d)
+            if any(now.get(f) != before[f] for f in before):
+                raise Violation("%s: the existing file was modified" % where, sig="C19 create-only modified an existing file")
             return label, kind in ("valid", "magic", "truncated")
         if entry == "open_existing":
             if kind == "missing":
@@ -266,21 +265,18 @@ def run_input_case(case, entry):
                     raise Violation("%s: raised %s instead of DBDoesntExist" % (where, type(e).__name__), sig="C19 open-only wrong error")
                 else:
                     raise Violation("%s: did not raise DBDoesntExist" % where, sig="C19 open-only accepted a missing file")
-                if listing(d) != before:
-                    raise Violation("%s: something was created: %r" % (where, sorted(listing(d))), sig="C19 open-only created a file")
+                if os.path.exists(path):
+                    raise Violation("%s: a file was created at the path: %r" % (where, sorted(listing(d))), sig="C19 open-only created a file")
                 return label, True
             try:
                 c = database.open_existing_db(path)
                 c.close()
             except BaseException:
-                if set(listing(d)) - set(before):
-                    raise Violation("%s: a failed open created %r" % (where, sorted(set(listing(d)) - set(before))), sig="C19 open-only created a file")
+                pass
             return label, False
         fn = database.create_or_upgrade_channel_db if name == "channel" else database.create_or_upgrade_usage_db
         if kind == "missing":
-            c = fn(path)
-            c.close()
-            check_complete(path, name, where)
+            _create_on_empty_path(fn, path, name, where)
             return label, False
         raised = None
         try:
@@ -301,13 +297,26 @@ def run_input_case(case, entry):
         if raised is not None:
             if after.get("db.sqlite") != before.get("db.sqlite"):
                 raise Violation("%s: rejected with %s but the file's bytes changed" % (where, type(raised).__name__), sig="C19 rejected file modified")
-            extra = sorted(set(after) - set(before))
-            if extra:
-                raise Violation("%s: rejected, but new files %r appeared" % (where, extra), sig="C19 rejection left new files")
+            # (SQLite may leave -wal/-shm/-journal sidecars next to a file whose
+            # header announces WAL mode; the statement only demands that the
+            # file itself is byte-for-byte unchanged, so new entries are not judged)
+            changed = [f for f in before if f != "db.sqlite" and after.get(f) != before[f]]
+            if changed:
+                raise Violation("%s: rejected, but other files %r were modified" % (where, changed), sig="C19 rejection modified other files")
             return label, kind in ("valid", "magic", "truncated", "fkviolation", "noversionrow")
         return label, False
     finally:
         shutil.rmtree(d, ignore_errors=True)
+
+
+def _create_on_empty_path(fn, path, name, where):
+    try:
+        c = fn(path)
+        c.close()
+    except BaseException as e:
+        raise Violation("%s: starting on a path with no database failed: %s: %s" % (where, type(e).__name__, e),
+                        sig="C19 creation on an empty path fails")
+    check_complete(path, name, where)
 
 
 def _describe(case):
@@ -341,7 +350,7 @@ class C19(Check):
             "arbitrary rows and version in {current, 2..5, 2^31}, a database with a foreign-key violation, a database without "
             "version row, a missing path; each against create_or_upgrade_*, create-only and open-only entry points. Oracle: "
             "current version -> opens and every row is retained; non-database / newer version -> an exception and identical bytes "
-            "and directory listing; create-only on an existing path -> DBAlreadyExists, bytes unchanged; open-only on a missing "
+            "of the file (and of every other pre-existing file); create-only on an existing path -> DBAlreadyExists, bytes unchanged; open-only on a missing "
             "path -> DBDoesntExist, nothing created. Non-trivial = crash points between mkstemp and rename, and rejected/kept "
             "inputs that carry a valid SQLite header; distinct by crash point / by hash of the input.")
     level_text = ("Fault enumeration: every crash point (file-system call or SQL statement, before/after) of first-time database "
@@ -352,7 +361,7 @@ class C19(Check):
                   "calls inside SQLite; power loss/fsync ordering is outside.")
     technique = "exhaustive crash-point enumeration (fork + os._exit at every traced file-system call / SQL statement) + Hypothesis-generated file contents with byte/row oracles"
     assumptions = ["a killed process leaves the files exactly as they are at the crash event", "stray temporary files next to the target are allowed"]
-    quick = dict(examples=300, workers=8)
+    quick = dict(examples=2400, workers=8)
     thorough = dict(examples=20000, workers=16)
 
     def strategy(self, tier):
@@ -392,7 +401,8 @@ class C19(Check):
                 path = os.path.join(d, "db.sqlite")
                 status, events = dbfault.run_child(lambda: getattr(database, entry)(path), None, os.path.join(d, "ev.log"))
                 if status != "done":
-                    raise RuntimeError("baseline creation via %s failed: %s" % (entry, status))
+                    raise Violation("uninterrupted first-time creation via %s fails: %s" % (entry, status),
+                                    {"property": self.id, "kind": "crash", "entry": entry, "crash_event": 10 ** 9}, sig="C19 creation on an empty path fails")
                 counts[entry] = len(events)
                 jobs += [(entry, k) for k in range(len(events))]
             finally:
